@@ -13,7 +13,7 @@
      finished s (id, result of the sender chain) once the queue's Done callback has run
      store s    persistent queue: ids whose body is in the storage *)
 From Coq Require Import Permutation.
-From Verif Require Import Common.Base C03.Model C03.Proofs C03.ProofsB C03.Proofs2 C03.Proofs3 C03.Obs C03.ProofsObs.
+From Verif Require Import Common.Base C03.Model C03.Proofs C03.ProofsB C03.Proofs2 C03.Proofs3 C03.Obs C03.ProofsObs C03.ProofsLink.
 
 (* ---- in-memory queue ---------------------------------------------------------------------------
    When Shutdown has returned, every request accepted before Shutdown was called has been handed to the
@@ -92,35 +92,31 @@ Theorem final_flush_takes_current : forall c s s', step c s LFinalFlush = Some s
 Proof. exact final_flush_takes. Qed.
 
 (* ---- termination ----------------------------------------------------------------------------------
-   [ranked] labels = every label except producers' offers and the back-off timer branch.
-   (1) every ranked step strictly decreases the measure [mu] (except the no-op tick of the batch timer),
-       so no run of ranked labels is longer than mu: no infinite run avoids Return;
-   (2) while Shutdown has been called and has not returned some ranked label is enabled (the backend
-       answering a call is one) — no deadlock in the join conditions;
-   (3) hence Return is reachable from every reachable state after the call, within mu steps.
-   Partial: the back-off timer branch is excluded.  Before close(stopCh) that is inherent (a backend that
-   always fails transiently is retried for ever); after it the Go select can still take the timer
-   branch when both are ready (zero/elapsed interval, finding S4 of C05), and the faithful model allows
-   it, so an unconditional statement is false of the model: see shutdown_terminates_refuted. *)
-Theorem shutdown_terminates_partial : forall c ls s,
+   [ranked] labels = every label except the producers' offers / sends (the environment).  From every reachable
+   state in which close(stopCh) has happened (the first step of Shutdown; at PCalled it is enabled):
+   (1) Return is reachable using ranked labels only, within [mu c s] steps;
+   (2) while Shutdown has not returned some ranked label is enabled and decreases mu (the backend answering a call
+       is one) — no deadlock in the join conditions;
+   (3) every ranked step decreases mu (except the no-op tick of the batch timer): no run of the exporter's own threads
+       and the backend is longer than mu — in particular the back-off TIMER branch cannot keep a work alive after
+       stop: retry_sender.go re-checks stopCh when the timer fires (zero or elapsed delay: both channels ready, select
+       picks at random), and so does [LRetryTimer].  (Before that fix this was finding S4 and the statement was
+       refuted; a revert of the re-check is seeded change C03-m16.)
+   Only an endless stream of offers can keep a memory queue draining for ever (inherent). *)
+Theorem shutdown_terminates : forall c ls s,
   (c_batch c = true -> 1 <= c_nwork c) /\ 1 <= c_maxparts c ->
-  run c (init c) ls = Some s -> is_not (pc s) = false ->
+  run c (init c) ls = Some s -> ge_stopclosed (pc s) = true ->
   (exists ls' s', run c s ls' = Some s' /\ pc s' = PReturned /\ forallb ranked ls' = true /\ length ls' <= mu c s)
   /\ (pc s <> PReturned -> exists l s', step c s l = Some s' /\ ranked l = true /\ mu c s' < mu c s)
   /\ (forall ls' s', run c s ls' = Some s' -> forallb ranked ls' = true ->
         mu c s' + length (filter (fun l => match l with LTimerFire => false | _ => true end) ls') <= mu c s).
 Proof. exact terminates_l. Qed.
 
-(* The unconditional statement ("from every reachable state after close(stopCh), every maximal run of the
-   exporter's own threads with an answering backend reaches Return") is FALSE of the faithful model:
-   there is a reachable state after the stop and a non-empty cycle of labels (back-off timer branch,
-   export begins, export fails transiently) that returns to the same control state [ctl] — only the
-   ghost logs grow — so it can be repeated for ever.  (C05's finding S4; needs the timer channel and
-   stopCh ready together, i.e. a zero or already elapsed interval.) *)
-Theorem shutdown_terminates_refuted : exists c ls s cyc s',
-  run c (init c) ls = Some s /\ rstop s = true /\ is_not (pc s) = false /\ pc s <> PReturned /\
-  cyc <> [] /\ run c s cyc = Some s' /\ ctl s' = ctl s /\ mu c s' = mu c s /\ length (begun s') = S (length (begun s)).
-Proof. exact refuted_l. Qed.
+(* once stopCh is closed the timer branch of a back-off ends the work with the shutdown error: no further attempt *)
+Theorem retry_timer_after_stop_gives_up : forall c s k w s',
+  nth_error (works s) k = Some w -> w_st w = SBackoff -> rstop s = true -> step c s (LRetryTimer k) = Some s' ->
+  begun s' = begun s /\ nth_error (works s') k = Some (set_st (SDone RShutdown) w).
+Proof. exact retry_timer_stop_l. Qed.
 
 (* ---- storage errors while the queue is stopped -----------------------------------------------------
    [LQueueStop err]: persistentQueue.Shutdown may fail (queue-size snapshot not written, Close failed).  All
@@ -176,28 +172,58 @@ Theorem shutdown_without_queue : forall c ls s,
   rstop s = c_retry c /\ forallb is_caller (works s) = true /\ live s = length (works s) /\ postb s = 0.
 Proof. exact direct_returned_l. Qed.
 
+(* ---- the thread structure --------------------------------------------------------------------------------
+   [census s] = the goroutines created by the exporter helper that are alive in s, by creation site: consumers
+   (asyncQueue.Start), flush goroutines (defaultBatcher.flush), the flush timer goroutine; there is no fourth kind
+   (the correspondence run compares this census with the creation sites found in a goroutine dump at every
+   quiescent point).  Each kind is accounted for in the WaitGroup that Shutdown waits on: the number of consumers
+   alive is asyncQueue.stopWG's counter (n_cons_alive + exited = the configured number) and the first join is
+   enabled exactly when it is 0; the second join (defaultBatcher.stopWG) is enabled exactly when no flush goroutine
+   and no timer goroutine is alive; at the return the census is empty. *)
+Theorem census_consumers : forall c ls s, run c (init c) ls = Some s -> n_cons_alive s + exited s = ncons_eff c.
+Proof. exact (fun c ls s R => census_consumers_l c s (run_inv c ls (init c) s (init_inv c) R)). Qed.
+
+Theorem join_consumers_iff_no_consumer_alive : forall c ls s, run c (init c) ls = Some s -> pc s = PQStopped ->
+  ((exists s', step c s LJoinConsumers = Some s') <-> n_cons_alive s = 0).
+Proof. exact (fun c ls s R => join_consumers_iff_l c s (run_inv c ls (init c) s (init_inv c) R)). Qed.
+
+Theorem join_flushes_iff_no_flush_or_timer_goroutine : forall c ls s, run c (init c) ls = Some s -> pc s = PFlushed ->
+  ((exists s', step c s LJoinFlushes = Some s') <-> n_fly s = 0 /\ n_timer s = 0).
+Proof. exact (fun c ls s R => join_flushes_iff_l c s (run_inv c ls (init c) s (init_inv c) R)). Qed.
+
+Theorem census_empty_at_return : forall c ls s,
+  c_queue c = true -> run c (init c) ls = Some s -> pc s = PReturned -> census s = [0; 0; 0; 0].
+Proof. exact census_at_return_l. Qed.
+
 (* ---- the property on OBSERVED behaviour ---------------------------------------------------------------
    Obs.v [prop_viol] checks the clauses on a recorded schedule of the implementation without the model's step
    function (the check driver runs it on every recorded case: an independent oracle, and the source of the
    failing input when model and implementation disagree).  It decides exactly the Prop-level clauses: *)
 Theorem observed_clauses_decided : forall pb mode mx q ps fin,
-  prop_viol ([b2n pb; 0; 0; mode; 0; 0; 0; 0; 0; mx; q], ps, fin) = 0 <-> SchedProp (b2n pb) mode mx q ps fin.
-Proof. exact sched_ok_iff. Qed.
+  prop_viol ([b2n pb; 0; 0; mode; 0; 0; 0; 0; 0; mx; q; 0], ps, fin) = 0 <->
+  CensusOK ps /\ SchedProp (b2n pb) mode mx q ps fin.
+Proof.
+  exact (fun pb mode mx q ps fin =>
+    iff_trans (prop_viol_iff ([b2n pb; 0; 0; mode; 0; 0; 0; 0; 0; mx; q; 0], ps, fin))
+              (and_iff_compat_l _ (sched_ok_iff pb mode mx q ps fin))).
+Qed.
 
 Theorem observed_refcount_decided : forall codes ps fin,
-  prop_viol (9 :: codes, ps, fin) = 0 <-> (In 3 codes -> fst fin = [1]).
-Proof. exact refcount_ok_iff. Qed.
-
-(* no NEW attempt after the return: in a run of the exporter's own labels (no further Send, no back-off timer branch)
-   the number of export begins is bounded by the works that had not yet reached the export function ([ready]);
-   in particular a work in back-off or already answered never begins again *)
-Theorem no_new_attempt_without_queue : forall c ls1 s1 ls2 s2,
-  c_queue c = false -> run c (init c) ls1 = Some s1 -> run c s1 ls2 = Some s2 -> forallb ranked ls2 = true ->
-  ready s2 + sumf is_begin ls2 <= ready s1.
+  prop_viol (9 :: codes, ps, fin) = 0 <-> CensusOK ps /\ (In 3 codes -> fst fin = [1]).
 Proof.
-  exact (fun c ls1 s1 ls2 s2 Q R1 R2 Rk =>
-           run_ready c ls2 s1 s2 (run_inv c ls1 (init c) s1 (init_inv c) R1) Q R2 Rk).
+  exact (fun codes ps fin =>
+    iff_trans (prop_viol_iff (9 :: codes, ps, fin)) (and_iff_compat_l _ (refcount_ok_iff codes ps fin))).
 Qed.
+
+(* no NEW attempt after the return: in ANY run of the exporter's own labels after the return (every label except a
+   further Send — the back-off timer branch included, zero delay or not) the number of export begins is bounded by the
+   works that had not yet reached the export function ([ready]); a work in back-off or already answered never begins
+   again *)
+Theorem no_new_attempt_without_queue : forall c ls1 s1 ls2 s2,
+  c_queue c = false -> run c (init c) ls1 = Some s1 -> pc s1 = PReturned ->
+  run c s1 ls2 = Some s2 -> forallb ranked ls2 = true ->
+  ready s2 + sumf is_begin ls2 <= ready s1.
+Proof. exact no_new_attempt_l. Qed.
 
 (* "all export calls have returned" is FALSE for an exporter without queue (nothing to join; the call runs on
    the caller's goroutine): witness, replayed by the queue-less family of the harness
@@ -214,6 +240,33 @@ Theorem drains_memory_needs_a_consumer_refuted : exists c ls s,
   In 1 (accpre s) /\ cnt 1 (begun s) = 0.
 Proof. exact no_consumer_refuted_l. Qed.
 
+(* ---- the checker's observation and the theorems' ghost logs coincide on the model's own runs ------------------
+   For every run of the scheduler [exec] (any configuration, any action list): the export-begin events of all phases
+   together are exactly [begun], the export-end events exactly [ended] (as multisets of ids).  Hence, on the model's
+   own behaviour, the aggregate forms of the checker's clauses 6 and 7 follow from the theorems above.
+   PARTIAL: the phase-indexed statement  forall run, prop_viol (observe run) = 0  (which also needs "no begin event in
+   a phase after the return event's phase", the position of the inner-shutdown event, the census events and the
+   durable clause) is not proved; it is checked by computation on every recorded case, where the observed
+   behaviour equals the model's (check_case) and prop_viol of it is 0. *)
+Theorem scheduler_begin_events_are_begun : forall hc acts ls evss s i,
+  exec hc [] (init (h_cfg hc)) acts = Some (ls, evss, s) -> cnt i (idsk 0 (concat evss)) = cnt i (begun s).
+Proof. exact exec_events_are_begun. Qed.
+
+Theorem scheduler_end_events_are_ended : forall hc acts ls evss s i,
+  exec hc [] (init (h_cfg hc)) acts = Some (ls, evss, s) -> cnt i (idsk 1 (concat evss)) = cnt i (ended s).
+Proof. exact exec_events_are_ended. Qed.
+
+Theorem model_observation_calls_closed_partial : forall hc acts ls evss s i,
+  c_queue (h_cfg hc) = true -> exec hc [] (init (h_cfg hc)) acts = Some (ls, evss, s) -> pc s = PReturned ->
+  cnt i (idsk 1 (concat evss)) = cnt i (idsk 0 (concat evss)).
+Proof. exact exec_obs_calls_closed. Qed.
+
+Theorem model_observation_drained_partial : forall hc acts ls evss s i,
+  c_queue (h_cfg hc) = true -> c_persist (h_cfg hc) = false -> 1 <= c_ncons (h_cfg hc) ->
+  exec hc [] (init (h_cfg hc)) acts = Some (ls, evss, s) -> pc s = PReturned ->
+  In i (accpre s) -> 1 <= cnt i (idsk 0 (concat evss)).
+Proof. exact exec_obs_drained. Qed.
+
 (* ---- the model that the correspondence run executes is this LTS ---------------------------------- *)
 Theorem scheduler_runs_are_runs : forall hc acts ls evss s,
   exec hc [] (init (h_cfg hc)) acts = Some (ls, evss, s) -> run (h_cfg hc) (init (h_cfg hc)) ls = Some s.
@@ -228,8 +281,8 @@ Print Assumptions no_begin_after_return.
 Print Assumptions no_begin_after_inner_shutdown.
 Print Assumptions partial_batch_flushed.
 Print Assumptions final_flush_takes_current.
-Print Assumptions shutdown_terminates_partial.
-Print Assumptions shutdown_terminates_refuted.
+Print Assumptions shutdown_terminates.
+Print Assumptions retry_timer_after_stop_gives_up.
 Print Assumptions queue_stop_error_only_sets_the_result.
 Print Assumptions split_request_kept_iff_some_part_interrupted.
 Print Assumptions split_request_verdict_order_independent.
@@ -238,9 +291,17 @@ Print Assumptions close_stop_stops_retry.
 Print Assumptions backoff_released_by_stop.
 Print Assumptions shutdown_without_queue_never_waits.
 Print Assumptions shutdown_without_queue.
+Print Assumptions census_consumers.
+Print Assumptions join_consumers_iff_no_consumer_alive.
+Print Assumptions join_flushes_iff_no_flush_or_timer_goroutine.
+Print Assumptions census_empty_at_return.
 Print Assumptions observed_clauses_decided.
 Print Assumptions observed_refcount_decided.
 Print Assumptions no_new_attempt_without_queue.
 Print Assumptions calls_returned_without_queue_refuted.
 Print Assumptions drains_memory_needs_a_consumer_refuted.
+Print Assumptions scheduler_begin_events_are_begun.
+Print Assumptions scheduler_end_events_are_ended.
+Print Assumptions model_observation_calls_closed_partial.
+Print Assumptions model_observation_drained_partial.
 Print Assumptions scheduler_runs_are_runs.
